@@ -1,4 +1,4 @@
 From Coq Require Import Extraction ExtrOcamlBasic NArith.
 From DV Require Import Base.Outcome C05.Schema C05.Gen C05.Model.
 Extraction Language OCaml.
-Extraction "../build/ml/C05/model.ml" c05_fields c05_compose c05_parse.
+Extraction "../build/ml/C05/model.ml" c05_fields c05_compose c05_parse c05_eq_unknown.
